@@ -7,6 +7,7 @@ import YaraModel.Lemmas.ReChain
 import YaraModel.Lemmas.ReEmit
 import YaraModel.Lemmas.ReAtomPos
 import YaraModel.Lemmas.ReAtomEntry
+import YaraModel.Lemmas.ReScan
 namespace YaraModel.C02
 open YaraModel.Re
 
@@ -266,5 +267,27 @@ open YaraModel.ReEmit in
     code position 11 (+ 15 bytes of forward code = the 26 the real automaton entry shows) -/
 example : holePos (.catR (.lit 0x10) (.catR .any (.catL .hole (.cat (.lit 0x42) (.cat (.lit 0x43) (.cat .any (.cat (.lit 0x20) (.lit 0x30)))))))) 0 = 3 ∧
     bwdPos (.lit 0x41) (.catR (.lit 0x10) (.catR .any (.catL .hole (.cat (.lit 0x42) (.cat (.lit 0x43) (.cat .any (.cat (.lit 0x20) (.lit 0x30)))))))) 0 = 11 := by decide
+
+open YaraModel.ReVm YaraModel.ReEmit YaraModel.ReScan in
+/-- `hex_scan_sound`: the scan of one hex string in one block is sound, end of the chain candidates → verification → match
+    callback → match list (Model/ReScan.lean: `_yr_scan_verify_re_match` with the forward run from the entry's forward code and
+    the exhaustive backward run from its backward code, `_yr_scan_match_callback`, `_yr_scan_add_match_to_list`).  For ALL hex
+    ASTs, buffers, flags and ANY list of candidates whose automaton entries point to the code positions of atom nodes of
+    the pattern (`CandOK`: what `reAtoms_cover` shows the atoms model records, compared with the real entries by the checks)
+    or are the zero-length atom — no hypothesis on HOW the automaton found them: every (offset, length) in the resulting
+    match list is a match of the pattern, buf[offset, offset+length).
+    Not yet proved: completeness of the chain (every match is in the list): `reAtoms_cover` supplies the atom occurrence and
+    the split of the match; what is missing is VM completeness (the runs from the atom report lb and lf) and the automaton
+    contract for masked atoms; the fast matcher `yr_re_fast_exec`; chains of more than two pieces. -/
+theorem hex_scan_sound (r : Re) (hh : HexAst r) (hszf : (emit false r 0).1.length < 32000) (hszb : (emit true r 0).1.length < 32000)
+    (buf : Bytes) (fl : VmFlags) (fuel : Nat) (cands : List Cand) (hc : ∀ c ∈ cands, CandOK r c ∧ c.off ≤ buf.size) :
+    ∀ x ∈ scanHex r buf fl fuel cands, Re.Matches (specFlagsG fl) buf r x.1 (x.1 + x.2) :=
+  scanHex_sound r hh.wf hszf hszb buf fl fuel cands hc
+
+open YaraModel.ReScan in
+/-- instance: `41 ?? 43` over `x A b C A - C`; the atom `41` (leaf 0: forward entry 0, backward entry 5 = behind the node in the
+    backward code `43 ?? 41`) is reported at offsets 1 and 4: the match list is [(1,3), (4,3)] -/
+example : scanHex (.cat (.lit 0x41) (.cat .any (.lit 0x43))) #[0x78, 0x41, 0x62, 0x43, 0x41, 0x2d, 0x43] {} 100000
+    [⟨0, some 5, 1⟩, ⟨0, some 5, 4⟩] = [(1, 3), (4, 3)] := by decide
 
 end YaraModel.C02
